@@ -96,7 +96,9 @@ func RunOnce(sc *Scenario, s Sched) *Obs {
 	}
 	opmon.Take()
 	verifshim.TakePanics()
-	eng, _, err := core.BuildEngine(&sc.Case, nil)
+	bc := sc.Case
+	bc.StoreCtx = sc.StoreCtx
+	eng, remoteStores, err := core.BuildEngine(&bc, nil)
 	if err != nil {
 		panic(err)
 	}
@@ -115,6 +117,9 @@ func RunOnce(sc *Scenario, s Sched) *Obs {
 	ctx, cancel := context.WithCancel(context.Background())
 	defer cancel()
 	st.Cancel = cancel
+	for _, rs := range remoteStores {
+		rs.Cancel = cancel
+	}
 	if sc.PreCancel {
 		cancel()
 	}
